@@ -56,6 +56,13 @@ Example L_rotate_pi_differs :
   contains (rotate_to (Poly Lshape) B0 false (-1) 0) (7 # 2, 1 # 2) = false /\ contains (Poly Lshape) (7 # 2, 1 # 2) = true.
 Proof. vm_compute. split; reflexivity. Qed.
 
+(* a symmetric bow-tie has zero signed area: the centre is the mean, also when the area is only zero up to rounding noise
+   (repaired zero-area test: |area| <= 1e-12 extent^2) *)
+Example bowtie_center : poly_center [(0, 0); (4, 3); (4, 0); (0, 3)] = (2, 3 # 2). Proof. vm_compute. reflexivity. Qed.
+Example bowtie_noise_center :
+  poly_center [(0, 0); (4, 3 + (1 # 1000000000000000)); (4, 0); (0, 3)] = (2, 6000000000000001 # 4000000000000000).
+Proof. vm_compute. reflexivity. Qed.
+
 (* verdicts: inside, outside, and within eps of the boundary *)
 Example verdicts :
   map (classify (1 # 1024) (Rect 0 4 0 2 Bgen (3 # 5) (4 # 5))) [(2, 1); (4, 1); (4, 2); (4 + (1 # 4096), 2)] = [VIn; VOut; VNear; VNear].
